@@ -141,8 +141,8 @@ theorem finishCore_chain (cfg : Cfg) (e : Env) (busy : Bool) (s : S) : Chain s (
   | none =>
   cases hs : p.state <;> cases busy <;> cases hk : p.killing <;> cases ht : e.tooQuickly <;> cases hx : e.exitExpected <;>
     simp [Chain, finishCore, changeState, assertIn, emit, setP, guard, replay, edge, intoUnknown, hs, hk, ht, hx,
-      finish_g1, finish_g3, finish_g4, finish_g5, finish_a7, finish_a8,
-      finish_a9, finish_a14, finish_a15, finish_a16, finish_a20, finish_c0, finish_c1_0, finish_c2, finish_c3_0, finish_c4_0,
+      finish_g1, finish_g2, finish_a7, finish_a8, finish_a9, finish_g4, finish_g5, finish_g6, finish_a11, finish_a12,
+      finish_a13, finish_a18, finish_a19, finish_a20, finish_a24, finish_c0, finish_c1_0, finish_c2, finish_c3_0, finish_c4_0,
       finish_c5, finish_c6_0, finish_c6_1, finish_c7_0, finish_c7_1,
       change_state_g0, change_state_g1, change_state_a0, change_state_a2, change_state_a4, change_state_a5, signallableStates]
 
